@@ -84,12 +84,15 @@ BAD = [
     {"nonorthogonal_radial_range_power": None},
 ]
 
+# calibrated on the unchanged tree: each of these makes redistributePoints raise part-way
+# (in _checkMonotonic or brentq) for every topology, after some regions have already been
+# redistributed, without leaving a guard-less mesh unusable
 OUTSIDE = [
-    {"nonorthogonal_xpoint_poloidal_spacing_length": 5.0,
-     "nonorthogonal_xpoint_poloidal_spacing_range": 0.9},
-    {"nonorthogonal_target_all_poloidal_spacing_length": 1.0e-4,
-     "nonorthogonal_target_all_poloidal_spacing_range": 0.9},
-    {"nonorthogonal_target_all_poloidal_spacing_length": 40.0},
+    {"nonorthogonal_target_all_poloidal_spacing_length": 10.0,
+     "nonorthogonal_target_all_poloidal_spacing_range": 0.1},
+    {"nonorthogonal_xpoint_poloidal_spacing_length": 50.0},
+    {"nonorthogonal_target_outer_lower_poloidal_spacing_length": 20.0,
+     "nonorthogonal_target_all_poloidal_spacing_range": 0.1},
 ]
 
 
@@ -104,10 +107,11 @@ def make_case(rng, allow_method_change=False, faults_ok=False, geoms=GEOMS, np_c
         s0.update(rng.choice(METHOD_SETTINGS))
     ops = []
     visited = [s0]
-    for _ in range(rng.choice((0, 1, 1, 2, 2, 3))):
+    nops = rng.choice((0, 1, 1, 2, 2, 3))
+    while len(ops) < nops:
         k = rng.choices(("regrid", "return", "repeat", "junk", "bad", "outside", "write",
                          "fault"),
-                        weights=(5, 2, 1, 2, 1.5, 1.5, 1.5, 1.5 if faults_ok else 0))[0]
+                        weights=(5, 2, 1, 2, 1.5, 2.5, 1.5, 2.0 if faults_ok else 0))[0]
         if k == "regrid":
             s = dict(rng.choice(pool))
             if method_change and rng.random() < 0.5:
@@ -127,7 +131,19 @@ def make_case(rng, allow_method_change=False, faults_ok=False, geoms=GEOMS, np_c
         elif k == "bad":
             ops.append({"op": "regrid", "s": dict(rng.choice(BAD)), "expect": "refused"})
         elif k == "outside":
-            ops.append({"op": "regrid", "s": dict(rng.choice(OUTSIDE))})
+            # settings that raise half-way: some regions are already redistributed, the
+            # rest are not; the bad values ride on top of an ordinary change of settings,
+            # and the user then typically repairs only the offending values
+            others = [p for p in pool if p != visited[-1]] or pool
+            good = dict(rng.choice(others))
+            bad = dict(rng.choice(OUTSIDE))
+            s = dict(good)
+            s.update(bad)
+            good = {k: v for k, v in good.items() if k not in bad}
+            ops.append({"op": "regrid", "s": s, "tag": "outside"})
+            if rng.random() < 0.7:
+                ops.append({"op": "regrid", "s": good, "tag": "repair"})
+                visited.append(good)
         elif k == "write":
             ops.append({"op": "write"})
         elif k == "fault":
@@ -139,7 +155,12 @@ def make_case(rng, allow_method_change=False, faults_ok=False, geoms=GEOMS, np_c
             else:
                 f = {"clock": {"key": key, "slowness": 1.0,
                                "slow_prob": rng.choice((1e-3, 1e-2))}}
-            ops.append(dict({"op": "regrid", "s": dict(rng.choice(pool))}, **f))
+            s = dict(rng.choice(pool))
+            ops.append(dict({"op": "regrid", "s": s}, **f))
+            if rng.random() < 0.7:
+                # the interrupted regrid is simply tried again with the same settings
+                ops.append({"op": "regrid", "s": dict(s), "tag": "retry"})
+                visited.append(s)
     final = dict(rng.choice(pool))
     if method_change:
         final.update(rng.choice(METHOD_SETTINGS))
@@ -438,7 +459,7 @@ def shape_of(case):
                 tag = "J"
             elif op.get("expect") == "refused":
                 tag = "B"
-            elif op["s"] in OUTSIDE:
+            elif op.get("tag") == "outside":
                 tag = "O"
             elif "buggify" in op or "clock" in op:
                 tag = "F"
